@@ -320,6 +320,10 @@ def special_corruption(sym, case, warm=()):
         ti, objs = base_treeinfo(0)
         ti.images.images["ppc64le"] = {"kernel": "images/vmlinuz"}
         top = ti
+    elif case == "tree-unreferenced-own-arch":
+        ti, objs = base_treeinfo(0)
+        ti.tree.platforms = set(["xen"])          # the tree's own arch has images but is not listed
+        top = ti
     elif case == "tree-absolute-image-path":
         ti, objs = base_treeinfo(0)
         p = sym.str("path", 4, minlen=1, alphabet="printable")
@@ -435,7 +439,7 @@ def jobs(tier, seed):
     for uid in ("Server", "Server-HA", "Client"):
         add("treeinfo", "v:" + uid, TREE_VARIANT_FIELDS, ks)
     for case in ("child-arch-outside-parent", "child-arch-outside-parent-first-child", "misaligned-uid", "misaligned-top-uid", "empty-arches",
-                 "bad-variant-id", "additional-variants-on-non-unified", "empty-checksums", "tree-absolute-checksum-path", "tree-unreferenced-platform",
+                 "bad-variant-id", "additional-variants-on-non-unified", "empty-checksums", "tree-absolute-checksum-path", "tree-unreferenced-platform", "tree-unreferenced-own-arch",
                  "tree-absolute-image-path", "tree-absolute-stage2", "tree-misaligned-child-uid", "tree-dashed-variant-id"):
         for w in ([], ["images"], ["treeinfo"]) if (big or case.startswith("tree") or "arch" in case or "uid" in case) else ([],):
             out.append({"harness": "special_corruption", "params": {"case": case, "warm": w}})
